@@ -12,8 +12,8 @@ import (
 )
 
 func init() {
-	register(&Rule{ID: "R-mangle-unique", Floor: 6, Run: ruleR2MangleUnique,
-		Doc: "name mangling in the bytecode compiler is injective program-wide: the counter maps of compiler.Compiler (labels, variables, functions) and its scalar name counters are created once (in the constructor) and never replaced, deleted from or cleared on a live Compiler; every update is an increment (`m[k]++`, `m[k] += c`, `m[k] = m[k] + c`, or the constant first-use store on the branch where the lookup missed), all updates of one map live in one helper, and the counter value read from the map is part of the name that helper formats. Necessary for C01/C11/C15: function literals and trigger argument functions are compiled in the middle of their enclosing function, relocateLabels keeps the LAST definition of a label name per function and renameVariables resolves variables through one slot table shared by all functions, so a repeated label silently retargets break/continue/if/try jumps and a repeated variable name makes two variables share a slot"})
+	register(&Rule{ID: "R-mangle-unique", Floor: 8, Run: ruleR2MangleUnique,
+		Doc: "name mangling in the bytecode compiler is injective program-wide: the counter maps of compiler.Compiler (labels, variables, functions) and its scalar name counters are created once (in the constructor) and never replaced, deleted from or cleared on a live Compiler; every update is an increment (`m[k]++`, `m[k] += c`, `m[k] = m[k] + c`, or the constant first-use store on the branch where the lookup missed), all updates of one map live in one helper, and the counter value read from the map is part of the name that helper formats. Necessary for C01/C11/C15: function literals and trigger argument functions are compiled in the middle of their enclosing function, relocateLabels keeps the LAST definition of a label name per function and renameVariables resolves variables through one slot table shared by all functions, so a repeated label silently retargets break/continue/if/try jumps and a repeated variable name makes two variables share a slot. Taking a fresh number is atomic: in every function that touches a counter, on every path, no call that can (transitively) read the same counter runs between the read of the counter and its advance (nested function literals / nested constructs are compiled re-entrantly and would take the same number), and a number that was read is followed by an advance before the function returns"})
 	register(&Rule{ID: "R-fn-preregister", Floor: 4, Run: ruleR2FnPreregister,
 		Doc: "linking: every function the compiler compiles from a function list of the analysed program (module.Functions, impl-block methods) is entered into the compiler's function table (the method that stores into Compiler.modules[..][..]) by a registration loop over the SAME list that (1) registers on every path of every iteration (no filtering condition, continue, break or return), (2) is reached unconditionally in every iteration of the loops that enclose it, and (3) has completed for ALL modules before the first function body is compiled (registration and compilation do not share a loop). Necessary for C15/C01: getMangledFn resolves a callee first in the current module's table and otherwise in ANY module's table, and compileFn registers a function only when it reaches it, so a function that is not pre-registered is linked to a same-named function of another module (wrong body, wrong globals) or lowered to a global read that aborts the VM, for every call that precedes the definition in compilation order"})
 }
@@ -117,6 +117,19 @@ func ruleR2MangleUnique(c *Ctx) []Obligation {
 		// lookups `v, ok := x.F[k]`: ok object → field
 		missOf := map[types.Object]*types.Var{}
 		readOf := map[types.Object]string{} // v := x.F[k] → "F[k]"
+		scalarReadOf := map[types.Object]*types.Var{}
+		ast.Inspect(fd.Body, func(n ast.Node) bool {
+			if as, ok := n.(*ast.AssignStmt); ok && len(as.Lhs) == len(as.Rhs) {
+				for i, r := range as.Rhs {
+					if f := vmFieldOf(info, vmStripConv(info, r)); f != nil && facts[f] != nil && !isMapF[f] {
+						if o := vmObjOf(info, as.Lhs[i]); o != nil {
+							scalarReadOf[o] = f
+						}
+					}
+				}
+			}
+			return true
+		})
 		ast.Inspect(fd.Body, func(n ast.Node) bool {
 			as, ok := n.(*ast.AssignStmt)
 			if ok && len(as.Rhs) == 1 && len(as.Lhs) >= 1 {
@@ -190,6 +203,16 @@ func ruleR2MangleUnique(c *Ctx) []Obligation {
 						} else {
 							// scalar counter
 							okW := x.Tok == token.ADD_ASSIGN && i < len(x.Rhs) && posConst(x.Rhs[i])
+							if !okW && x.Tok == token.ASSIGN && i < len(x.Rhs) {
+								// x.F = x.F + c  /  x.F = v + c with v read from x.F
+								if be, ok := ast.Unparen(x.Rhs[i]).(*ast.BinaryExpr); ok && be.Op == token.ADD && posConst(be.Y) {
+									if vmFieldOf(info, be.X) == f {
+										okW = true
+									} else if o := vmObjOf(info, be.X); o != nil && scalarReadOf[o] == f {
+										okW = true
+									}
+								}
+							}
 							if !okW && !rootIsFreshLocal(fd, l) {
 								facts[f].bad = append(facts[f].bad, fmt.Sprintf("%s @%s: `%s`", fname, c.Pos(x.Pos()), vmTrunc(exprStr(l)+" "+x.Tok.String()+" …", 60)))
 							} else if okW {
@@ -385,6 +408,8 @@ func ruleR2MangleUnique(c *Ctx) []Obligation {
 		}
 		obs = append(obs, ob)
 	}
+	// round 3: taking a fresh number is atomic w.r.t. re-entrant compilation
+	obs = append(obs, r3emTakeAtomic(c, append(append([]*types.Var{}, maps...), scalars...), isMapF)...)
 	return obs
 }
 
@@ -548,25 +573,9 @@ func ruleR2FnPreregister(c *Ctx) []Obligation {
 		sl, ok := t.Underlying().(*types.Slice)
 		return ok && types.Identical(sl.Elem(), fnDefT)
 	}
-	// compileFn: emitter method with a parameter of the function-definition type
-	var compileFn *types.Func
-	for obj := range roles.emitters {
-		sig := obj.Type().(*types.Signature)
-		if sig.Recv() == nil {
-			continue
-		}
-		for i := 0; i < sig.Params().Len(); i++ {
-			if types.Identical(sig.Params().At(i).Type(), fnDefT) {
-				if compileFn != nil && compileFn != obj {
-					fatalf("anchor ambiguous: two emitter methods take an AnalyzedFunctionDefinition (%s, %s)", compileFn.Name(), obj.Name())
-				}
-				compileFn = obj
-			}
-		}
-	}
-	if compileFn == nil {
-		fatalf("anchor unresolved: no emitter method takes an analyzer/ast.AnalyzedFunctionDefinition")
-	}
+	// compileFn: the emitter method with a parameter of the function-definition type (the root of
+	// them when the function compiler is split into helpers that all receive the definition)
+	compileFn, _ := r3emPickFnCompiler(roles, fnDefT)
 	// the function table: Compiler field of type map[..]map[..]*Function; the registering method stores into it
 	var table *types.Var
 	if tn, _ := comp.Types.Scope().Lookup("Compiler").(*types.TypeName); tn != nil {
